@@ -2,7 +2,7 @@
 // produce path; the history carries client-side events, the wire-level view of every produce
 // request/response at the broker, and finally the log contents read back by a fresh consumer.
 //
-// op:   idem <seed> <nprod> <perprod> <parts> <brokers> <faultpct> <linger> <timeoutms> <retries> <maxinflight-unused>
+// op:   idem <seed> <nprod> <perprod> <parts> <brokers> <faultpct> <linger> <timeoutms> <retries> <single-record-batches>
 // impl: cfg:<parts> then events
 //
 //	P:id:part            Produce called (manual partitioner: the partition is chosen by the caller)
@@ -53,7 +53,11 @@ func gen(a hx.Args) {
 		linger := hx.Pick(r, []int{0, 0, 2, 10})
 		timeout := hx.Pick(r, []int{0, 0, 1000, 1500, 3000})
 		retries := hx.Pick(r, []int{1, 3, 20, 20})
-		hx.Emit("idem %d %d %d %d %d %d %d %d %d 0", r.U64()%1000000, nprod, perprod, parts, brokers, faultpct, linger, timeout, retries)
+		single := 0
+		if r.Chance(30) {
+			single = 1 // producers pause after every record, so batches mostly hold one record
+		}
+		hx.Emit("idem %d %d %d %d %d %d %d %d %d %d", r.U64()%1000000, nprod, perprod, parts, brokers, faultpct, linger, timeout, retries, single)
 	}
 }
 
@@ -118,6 +122,7 @@ func run(t *testing.T, tk []string) string {
 	seed := uint64(hx.Atoi(tk[1]))
 	nprod, perprod, parts, brokers := int(hx.Atoi(tk[2])), int(hx.Atoi(tk[3])), int(hx.Atoi(tk[4])), int(hx.Atoi(tk[5]))
 	faultpct, linger, timeoutms, retries := int(hx.Atoi(tk[6])), int(hx.Atoi(tk[7])), int(hx.Atoi(tk[8])), int(hx.Atoi(tk[9]))
+	single := tk[10] == "1"
 	rng := hx.NewRng(seed)
 	log := &sim.Log{}
 	var fmu sync.Mutex
@@ -291,7 +296,9 @@ func run(t *testing.T, tk []string) string {
 					log.Add("R:%s:%s:%d:%d", ids, errClass(err), r.Partition, r.Offset)
 				})
 				log.Add("X:%s", ids)
-				if wr.Chance(30) {
+				if single {
+					time.Sleep(time.Duration(5+wr.Intn(30)) * time.Millisecond)
+				} else if wr.Chance(30) {
 					time.Sleep(time.Duration(wr.Intn(15)) * time.Millisecond)
 				}
 			}
